@@ -294,17 +294,19 @@ def shape_world(w1, b1, w2, b2):
 
 def _response_shapes(w1: int, b1: int, w2: int, b2: int, via: int) -> bool:
     """
-    pre: 0 <= w1 < len(SHAPE_WRAPS) and 0 <= w2 < len(SHAPE_WRAPS) and 0 <= b1 < len(SHAPE_BASES) and 0 <= b2 < len(SHAPE_BASES) and 0 <= via <= 2
+    pre: 0 <= w1 < len(SHAPE_WRAPS) and 0 <= w2 < len(SHAPE_WRAPS) and 0 <= b1 < len(SHAPE_BASES) and 0 <= b2 < len(SHAPE_BASES) and 0 <= via <= 4
     pre: shard_of(w1)
     post: _
     """
     W1, W2, B1, B2 = pick(w1, SHAPE_WRAPS), pick(w2, SHAPE_WRAPS), pick(b1, SHAPE_BASES), pick(b2, SHAPE_BASES)
-    V = concrete_int(via, 0, 2)
+    V = concrete_int(via, 0, 4)
     with untraced():
         schema, root = shape_world(W1, B1, W2, B2)
         s1, s2 = ("v { z }" if B1 == "O" else "v"), ("v { z }" if B2 == "O" else "v")
         text = ("{ us { ... on A { %s } ... on B { %s } } }", "{ us { ...FA ...FB } } fragment FA on A { %s } fragment FB on B { %s }",
-                "{ us { ... on A { k %s } k: __typename ... on B { x: k %s } } }")[V] % (s1, s2)
+                "{ us { ... on A { k %s } k: __typename ... on B { x: k %s } } }",
+                "{ us { ... on A { ... { %s } } ... on B { %s } } }",                                   # the field sits in a type-less inline fragment inside the typed branch
+                "{ us { ... on A { ... @include(if: true) { ... { %s } } } ... on B { ... @skip(if: false) { %s } } } }")[V] % (s1, s2)
         if V == 2:
             # control: k (Int) against k: __typename (String!) must conflict whatever v is
             exp_ok = False
@@ -333,7 +335,7 @@ NAME_STYLES = (lambda side, i: "ABCDEF"[side * 3 + i], lambda side, i: ("Aa", "B
 
 
 def nested_conflict_document(d1, d2, style, reverse, parent, conflict, shared_tail):
-    on, f1, f2 = (("Query", "x: n", "x: echo"), ("User", "x: name", "x: age"))[parent]
+    on, f1, f2 = (("Query", "x: n", "x: echo"), ("User", "x: name", "x: age"), ("User", "x: name", "x: age"))[parent]
     if not conflict:
         f2 = f1
     name = NAME_STYLES[style]
@@ -353,17 +355,21 @@ def nested_conflict_document(d1, d2, style, reverse, parent, conflict, shared_ta
     if reverse:
         defs.reverse()
     sel = " ".join(tops)
-    op = "{ %s }" % sel if parent == 0 else "{ me { %s } }" % sel
+    if parent == 2:
+        # the two sides sit under two DIFFERENT nodes of the same parent field, merged by response key
+        op = "{ me { %s } me { %s } }" % (tops[0], tops[1])
+    else:
+        op = "{ %s }" % sel if parent == 0 else "{ me { %s } }" % sel
     return " ".join([op] + defs) if not reverse else " ".join(defs + [op])
 
 
 def _nested_conflicts(d1: int, d2: int, style: int, reverse: bool, parent: int, conflict: bool, shared_tail: bool) -> bool:
     """
-    pre: 0 <= d1 <= 3 and 0 <= d2 <= 3 and 0 <= style < len(NAME_STYLES) and 0 <= parent <= 1
+    pre: 0 <= d1 <= 3 and 0 <= d2 <= 3 and 0 <= style < len(NAME_STYLES) and 0 <= parent <= 2
     pre: shard_of(d1 * 4 + d2)
     post: _
     """
-    D1, D2, ST, P = concrete_int(d1, 0, 3), concrete_int(d2, 0, 3), concrete_int(style, 0, len(NAME_STYLES) - 1), concrete_int(parent, 0, 1)
+    D1, D2, ST, P = concrete_int(d1, 0, 3), concrete_int(d2, 0, 3), concrete_int(style, 0, len(NAME_STYLES) - 1), concrete_int(parent, 0, 2)
     RV, CF, TL = (True if reverse else False), (True if conflict else False), (True if shared_tail else False)
     with untraced():
         text = nested_conflict_document(D1, D2, ST, RV, P, CF, TL)
@@ -385,7 +391,7 @@ CONDITIONS = [
     ),
     Cond(
         name="response_shapes", fn=_response_shapes, quick=150, thorough=300, per_path=60, shards_quick=len(SHAPE_WRAPS), shards_thorough=len(SHAPE_WRAPS),
-        bound="the same response key on two different object types of a union, field types = every pair of wrapper lists of <= 3 wrappers over {Int, String, enum, object} (44 x 44), through inline or named fragments "
+        bound="the same response key on two different object types of a union, field types = every pair of wrapper lists of <= 3 wrappers over {Int, String, enum, object} (44 x 44), through inline or named fragments, directly or inside type-less / directive-only inline fragments "
               "(+ a control that must always conflict): validation accepts exactly when SameResponseShape holds, and an accepted operation returns the same list structure for both",
         symbolic={"w1,b1,w2,b2": "choice: the two field types", "via": "choice: inline / named fragments / control"},
         assumptions=["reference: SameResponseShape (spec 5.3.2)"], witness={"w1": 1, "b1": 0, "w2": 1, "b2": 0, "via": 0},
@@ -393,7 +399,7 @@ CONDITIONS = [
     Cond(
         name="nested_conflicts", fn=_nested_conflicts, quick=100, thorough=200, per_path=60, shards_quick=16, shards_thorough=16,
         bound="two same-key selections, each written directly or at the bottom of a chain of 1..3 nested fragment spreads (4 x 4 depths) x 4 fragment naming styles (one letter, two letters with a common letter, long names, "
-              "names that are prefixes of each other) x definition order x root / nested parent x conflicting or identical fields x a further shared fragment: a conflict is reported exactly when the fields differ",
+              "names that are prefixes of each other) x definition order x root / nested parent / two merged parent fields x conflicting or identical fields x a further shared fragment: a conflict is reported exactly when the fields differ",
         symbolic={"d1,d2": "choice: nesting depths", "style": "choice: fragment names", "reverse,parent,conflict,shared_tail": "choice"},
         assumptions=["reference: FieldsInSetCanMerge (spec 5.3.2) for two fields of one parent type"], witness={"d1": 2, "d2": 1, "style": 1, "reverse": False, "parent": 0, "conflict": True, "shared_tail": False},
     ),
